@@ -286,7 +286,7 @@ func checkC13(c *Ctx) error {
 					}
 				}
 				if !named {
-					c.Violate("must-without-getter-not-named", fmt.Sprintf("unit %s: rejection does not name the service: %v", u.ID, u.Run.Rep.List), files)
+					c.Side("C11", "must-without-getter-not-named", fmt.Sprintf("unit %s: rejection does not name the service: %v", u.ID, u.Run.Rep.List), files)
 				}
 				c.Add("explicit_must_without_getter_rejected", 1)
 			}
@@ -416,7 +416,7 @@ func checkC13(c *Ctx) error {
 		files := map[string]string{"input/in.yaml": yaml, "stdout.txt": run.Res.Stdout}
 		c.Eval("coll:"+yaml, true)
 		for _, b := range run.Contract() {
-			c.Violate("cli-contract:"+sigWords(b), b, files)
+			c.Side("C10,C12", "cli-contract:"+sigWords(b), b, files)
 		}
 		if x.reject && run.Res.Exit == 0 {
 			c.Violate("collision-accepted:"+sigWords(x.why), "accepted: "+x.why, files)
@@ -433,7 +433,7 @@ func checkC13(c *Ctx) error {
 					}
 				}
 				if !named {
-					c.Violate("collision-not-named:"+sigWords(x.why), fmt.Sprintf("%s: diagnostics do not name service %q: %v", x.why, who, run.Rep.List), files)
+					c.Side("C11", "collision-not-named:"+sigWords(x.why), fmt.Sprintf("%s: diagnostics do not name service %q: %v", x.why, who, run.Rep.List), files)
 				}
 			}
 		}
